@@ -61,9 +61,10 @@ Qed.
 Lemma step_async_begin s t q s' : Inv s -> valid_tid t -> mbegin s t (MAsync q) = Some s' -> Inv s'.
 Proof.
   intros I Vt B. unfold mbegin in B. destruct (pcs (lane s) t) eqn:Hlp; try discriminate.
-  destruct (mpcs s t) eqn:Hpc; try discriminate. destruct (qos_ok q) eqn:Q; [|discriminate]. injection B as <-.
-  unfold qos_ok in Q. apply andb_true_iff in Q as [Q1 Q2]. apply Z.leb_le in Q1. apply Z.ltb_lt in Q2.
-  pose proof I as (T & Y & V & G). destruct (c_lane (mcl s)) eqn:CL.
+  destruct (mpcs s t) eqn:Hpc; try discriminate; (destruct (qos_ok q) eqn:Q; [|discriminate]); injection B as <-;
+  unfold qos_ok in Q; apply andb_true_iff in Q as [Q1 Q2]; apply Z.leb_le in Q1; apply Z.ltb_lt in Q2;
+  pose proof I as (T & Y & V & G).
+  { destruct (c_lane (mcl s)) eqn:CL.
   - destruct G as [I2 G2].
     apply (Inv_local_lane s t (set_pc (lane s) t (PA_xchg q)) (MP_push KRet) I CL); lproj; rewrite ?upd_same, ?Hpc; try reflexivity;
       try (intros; discriminate); try apply incl_refl.
@@ -80,7 +81,20 @@ Proof.
     + intros q0 E. injection E as <-. lia.
     + destruct G as [r G]. exact (a_nosync s r G).
     + unfold sinv. cbv zeta. mproj. lproj. rewrite !upd_same. cbn [stage kont]. repeat split; intros; try lia; discriminate.
-    + intros i P. exfalso. apply (not_parked_stage s t i P). rewrite Hpc, Hlp. cbn. lia.
+    + intros i0 P. exfalso. apply (not_parked_stage s t i0 P). rewrite Hpc, Hlp. cbn. lia. }
+  (* a work item on the bound thread submits to the main queue from inside its callout *)
+  destruct (T t) as (T1 & T2 & T3 & T4 & T5 & T6). rewrite Hpc in T3, T5.
+  assert (Et : t = mtid s) by (apply T3; reflexivity).
+  assert (CL : c_lane (mcl s) = false) by (unfold mcl; rewrite <- Et, Hpc; reflexivity).
+  apply (Inv_ext (set_mpc (set_syncers (set_ws (set_lane s (set_wakers (set_pc (lane s) t (PA_xchg q))
+           (if false then remove_z t (wakers (lane s)) else wakers (lane s)))) t (ws s t)) (syncers s)) t (MP_push (KCall i w more)))).
+  { msim_tac. }
+  apply (Inv_local_pre s t (PA_xchg q) false (MP_push (KCall i w more)) (ws s t) (syncers s) I CL); rewrite ?Hpc, ?Hlp; try reflexivity;
+    try (intros; discriminate); try tauto.
+  + intros q0 E. injection E as <-. lia.
+  + rewrite CL in G. destruct G as [r G]. exact (a_nosync s r G).
+  + unfold sinv. cbv zeta. mproj. lproj. rewrite !upd_same. cbn [stage kont]. repeat split; intros; try lia; discriminate.
+  + intros i0 P. exfalso. apply (not_parked_stage s t i0 P). rewrite Hpc, Hlp. cbn. lia.
 Qed.
 
 (* ------------------------------------------------------------------ the bound thread services the handle *)
